@@ -425,7 +425,20 @@ impl System for DriveSys {
                 return Err(format!("finished after consuming {} of the frame's {} bytes", l.pos, self.seed.frame.len()));
             }
             // (in C06's view delivered == content here; in C08's view it is whatever was really handed out)
+            // C06's statement includes "the final checksum values are identical however decoding is driven": in its
+            // view every terminal state has delivered exactly the content, so both values are fixed by the frame and
+            // any other value is a dependence on the driver program - reported by C06 under its own wording (the
+            // same findings, tagged [C08], go to C08's run)
             let handed_out = zmodel::xxh::checksum32(&l.delivered);
+            if !c08 {
+                if dec.get_calculated_checksum() != Some(handed_out) {
+                    return Err(format!("final checksum depends on how the decoder was driven: calculated checksum {:?} after the whole content was delivered in order; every other driver program ends with {handed_out:#x}", dec.get_calculated_checksum()));
+                }
+                let stored = dec.get_checksum_from_data();
+                if (self.has_checksum && stored != Some(handed_out)) || (!self.has_checksum && stored.is_some()) {
+                    return Err(format!("final checksum depends on how the decoder was driven: checksum from data {stored:?} at the end of this program; the frame {}", if self.has_checksum { format!("stores {handed_out:#x}") } else { "has none".to_string() }));
+                }
+            }
             if dec.get_calculated_checksum() != Some(handed_out) {
                 return Err(format!("[C08] calculated checksum {:?} after all output was taken; XXH64 of the {} bytes handed out is {handed_out:#x}", dec.get_calculated_checksum(), l.delivered.len()));
             }
